@@ -84,7 +84,10 @@ func resolveInmemRoles(c *Ctx) *inmemRoles {
 	})
 	r.waiterT = namedOf(r.waiters.Type().Underlying().(*types.Map).Elem())
 	r.wDone = c.oneField("waiter.done", r.waiterT, func(f *types.Var) bool { _, ok := f.Type().Underlying().(*types.Chan); return ok })
-	r.wCount = c.oneField("waiter.count", r.waiterT, func(f *types.Var) bool { return types.Identical(f.Type(), types.Typ[types.Int]) })
+	r.wCount = c.oneField("waiter.count", r.waiterT, func(f *types.Var) bool {
+		b, ok := f.Type().Underlying().(*types.Basic) // int, or a named integer type
+		return ok && b.Info()&types.IsInteger != 0
+	})
 	for _, n := range storageMethodNames() {
 		r.storage[n] = c.RequireFn(c.P.MethodOf(r.svc, n), "inmem."+n)
 	}
@@ -667,8 +670,8 @@ func (c *Ctx) inmemExpiry(r *inmemRoles, rule string) {
 					ff := f.StripNot()
 					return r.expiryFact(f) != notExpiryEdge || (ff.Cond == okV && !ff.True)
 				},
-				Block:     func(x ssa.Instruction) bool { return r.recsLookup(x) != nil && x != in },
-				Target:    func(x ssa.Instruction) bool { return ir.IsExit(x) || r.recsUpdate(x) != nil || r.recsDelete(x) != nil }},
+				Block:  func(x ssa.Instruction) bool { return r.recsLookup(x) != nil && x != in },
+				Target: func(x ssa.Instruction) bool { return ir.IsExit(x) || r.recsUpdate(x) != nil || r.recsDelete(x) != nil }},
 				"a present record influences the result without the expiry decision (ExpiresAt==nil / not before now): an expired key is treated as existing")
 			// the expired edge deletes the record, notifies and does not report the record
 			for _, b := range fn.Blocks {
@@ -1035,28 +1038,35 @@ func (c *Ctx) inmemWaitRules(r *inmemRoles, w2, w3, w4, w5, w6 string) {
 	}
 	// W5 results under their guards
 	if w5 != "" {
-		for _, ret := range ir.Returns(fn) {
-			ev := ir.ResultValue(ret, 0)
+		for _, e := range ir.ExitPoints(fn) {
+			ret := e.Ret
+			ev := e.Result(0)
+			// where the alternative is decided: the last instruction of the deciding block
+			at := ssa.Instruction(ret)
+			if e.Block != ret.Block() && len(e.Block.Instrs) > 0 {
+				at = e.Block.Instrs[len(e.Block.Instrs)-1]
+			}
 			switch {
 			case ir.IsNilConst(ir.Resolve(ev)):
-				okG := hasFactCmp(ret.Block(), func(cm ir.Cmp) bool {
-					return cm.Op == token.NEQ && (ir.LoadedField(cm.X) == r.recVersion || ir.LoadedField(cm.Y) == r.recVersion)
+				okG := e.HasFact(func(f ir.Fact) bool {
+					cm, isCmp := f.Cmp()
+					return isCmp && cm.Op == token.NEQ && (ir.LoadedField(cm.X) == r.recVersion || ir.LoadedField(cm.Y) == r.recVersion)
 				})
 				c.Decide(w5, fn, "nil only when the stored version differs", ret, okG, "WaitForVersionChange returns nil on a path where the version was not seen to differ (invented change)")
 				// the compared record stems from a lookup of this critical section
 				okL := false
 				for _, lk := range lookups {
-					if !ir.Dominates(lk, ret) {
+					if !ir.Dominates(lk, at) {
 						continue
 					}
-					// no lock acquisition lies between the lookup and the return
+					// no lock acquisition lies between the lookup and the decision
 					relocked := false
 					ir.Instrs(fn, func(l ssa.Instruction) {
 						if !r.isLock(l) {
 							return
 						}
-						w1, _ := (ir.Query{Fn: fn, From: lk, Block: func(x ssa.Instruction) bool { return x == ssa.Instruction(ret) }, Target: func(x ssa.Instruction) bool { return x == l }}).Find()
-						w2, _ := (ir.Query{Fn: fn, From: l, Block: func(x ssa.Instruction) bool { return x == lk }, Target: func(x ssa.Instruction) bool { return x == ssa.Instruction(ret) }}).Find()
+						w1, _ := (ir.Query{Fn: fn, From: lk, Block: func(x ssa.Instruction) bool { return x == at }, Target: func(x ssa.Instruction) bool { return x == l }}).Find()
+						w2, _ := (ir.Query{Fn: fn, From: l, Block: func(x ssa.Instruction) bool { return x == lk }, Target: func(x ssa.Instruction) bool { return x == at }}).Find()
 						if w1 != nil && w2 != nil {
 							relocked = true
 						}
@@ -1067,7 +1077,7 @@ func (c *Ctx) inmemWaitRules(r *inmemRoles, w2, w3, w4, w5, w6 string) {
 				}
 				c.Decide(w5, fn, "nil decided on a lookup of this critical section", ret, okL, "the version is compared on data that was not read under the current lock acquisition")
 			case globalOf(ev) != nil && globalOf(ev).Name() == "ErrNotExist":
-				okG := ir.HasFact(ret.Block(), func(f ir.Fact) bool {
+				okG := e.HasFact(func(f ir.Fact) bool {
 					ff := f.StripNot()
 					ex, isEx := ff.Cond.(*ssa.Extract)
 					return isEx && ex.Index == 1 && !ff.True
@@ -1075,7 +1085,7 @@ func (c *Ctx) inmemWaitRules(r *inmemRoles, w2, w3, w4, w5, w6 string) {
 				c.Decide(w5, fn, "ErrNotExist only when the key is absent", ret, okG, "ErrNotExist is returned on a path where the key was not seen to be absent")
 			default:
 				if call, ok := ir.Resolve(ev).(*ssa.Call); ok && call.Call.IsInvoke() && call.Call.Method.Name() == "Err" {
-					okG := ir.HasFact(ret.Block(), func(f ir.Fact) bool {
+					okG := e.HasFact(func(f ir.Fact) bool {
 						cm, isCmp := f.Cmp()
 						if !isCmp || cm.Op != token.EQL {
 							return false
@@ -1398,12 +1408,13 @@ func (c *Ctx) inmemRegistrationBalance(r *inmemRoles, rule string) {
 			}
 		}
 	})
+	var notifiedFact, goneFact func(f ir.Fact) bool
 	notifiedEdge := func(from, to *ssa.BasicBlock) bool {
 		ef := ir.EdgeFact(from, to)
-		if ef == nil {
-			return false
-		}
-		f := ef.StripNot()
+		return ef != nil && notifiedFact(*ef)
+	}
+	notifiedFact = func(f0 ir.Fact) bool {
+		f := f0.StripNot()
 		cm, ok := f.Cmp()
 		if !ok || cm.Op != token.EQL {
 			return false
@@ -1419,10 +1430,10 @@ func (c *Ctx) inmemRegistrationBalance(r *inmemRoles, rule string) {
 	// registration went away with it - edges "lookup of the waiters table failed" / "the channels differ"
 	goneEdge := func(from, to *ssa.BasicBlock) bool {
 		ef := ir.EdgeFact(from, to)
-		if ef == nil {
-			return false
-		}
-		f := ef.StripNot()
+		return ef != nil && goneFact(*ef)
+	}
+	goneFact = func(f0 ir.Fact) bool {
+		f := f0.StripNot()
 		if ex, ok := f.Cond.(*ssa.Extract); ok && ex.Index == 1 && !f.True {
 			if lk, isLk := ex.Tuple.(*ssa.Lookup); isLk {
 				if _, isW := loadOfField(lk.X, r.waiters); isW {
@@ -1444,9 +1455,11 @@ func (c *Ctx) inmemRegistrationBalance(r *inmemRoles, rule string) {
 	}
 	for _, inc := range incs {
 		q := ir.Query{Fn: fn, From: inc,
-			Block:     isDec,
-			BlockEdge: func(a, b *ssa.BasicBlock) bool { return notifiedEdge(a, b) || goneEdge(a, b) },
-			Target:    func(x ssa.Instruction) bool { return containsInstr(incs, x) },
+			Block:       isDec,
+			BlockEdge:   func(a, b *ssa.BasicBlock) bool { return notifiedEdge(a, b) || goneEdge(a, b) },
+			BlockFact:   func(f ir.Fact) bool { return notifiedFact(f) || goneFact(f) },
+			TrackConsts: true, // "again = false" on the paths that return: the loop condition is decided per path
+			Target:      func(x ssa.Instruction) bool { return containsInstr(incs, x) },
 		}
 		c.NoPath(rule, "a waiter registers again only after its registration was withdrawn or notified", inc, q,
 			"the waiter can go around and register once more while its previous registration still counts (neither decremented nor consumed by a notification): the entry's count is inflated, it never drops to zero when the waiters cancel, and the entry is left behind")
